@@ -200,15 +200,26 @@ pub fn edit(ctx: &mut Ctx) {
             6 => {
                 // `acl set -m`: the entry's access-control chunks are rewritten; nothing else of the entry, and nothing of any other entry
                 cmd = "acl";
-                args.extend(["experimental", "acl", "set", "--unstable", "a.pna", "-m", "u:alice:allow:r"].map(String::from));
+                // (argument text, default?, owner kind 0 owner / 1 user / 2 owning group / 3 group / 4 mask / 5 other, owner name, text after the owner)
+                let pool: [(&str, bool, u8, &str, Option<&str>); 10] = [
+                    ("u:alice:r,w", false, 1, "alice", Some("r,w")), ("u:bob:x", false, 1, "bob", Some("x")), ("g:staff:r", false, 3, "staff", Some("r")),
+                    ("d:u:alice:r", true, 1, "alice", Some("r")), ("u::r,w,x", false, 0, "", Some("r,w,x")), ("g::w", false, 2, "", Some("w")),
+                    ("o::r", false, 5, "", Some("r")), ("m::r,x", false, 4, "", Some("r,x")), ("u:carol", false, 1, "carol", None), ("u:alice:allow:r", false, 1, "alice", Some("allow:r")),
+                ];
+                let wire = |a: &(&str, bool, u8, &str, Option<&str>)| format!("{}:{}:{}:{}", a.1 as u8, a.2, hexw(a.3.as_bytes()), match a.4 { None => "-".to_string(), Some(t) => hexw(t.as_bytes()) });
+                let m = if rng.gen_bool(0.8) { Some(pool[rng.gen_range(0..pool.len())]) } else { None };
+                let x = if m.is_none() || rng.gen_bool(0.3) { Some(pool[rng.gen_range(0..pool.len())]) } else { None };
+                args.extend(["experimental", "acl", "set", "--unstable", "a.pna"].map(String::from));
+                if let Some(m) = &m { args.push("-m".into()); args.push(m.0.into()); }
+                if let Some(x) = &x { args.push("-x".into()); args.push(x.0.into()); }
                 for p in &pats { args.push(p.to_string()); }
-                model_req = String::new();
+                model_req = format!("transform {strategy} aclset {} {} {} ", m.as_ref().map(wire).unwrap_or("-".into()), x.as_ref().map(wire).unwrap_or("-".into()), names_wire(&sel));
             }
             7 => {
                 // `migrate`: regroups the access-control chunks of every entry; everything else stays
                 cmd = "migrate";
                 args.extend(["experimental", "migrate", "--unstable", "a.pna", "--output", "a.pna"].map(String::from));
-                model_req = String::new();
+                model_req = format!("transform {strategy} migrate ");
             }
             0 => {
                 cmd = "delete";
